@@ -164,7 +164,61 @@ def c10(args):
     return {'reproduced': bool(bad), 'detail': bad[:6]}
 
 
-RECIPES = {'c10': c10, 'linear_interp': linear_interp, 'c12': c12, 'c13': c13}
+def _bm_configs():
+    out = []
+    for (t0, t1) in ((-1., 1.), (0., 2.)):
+        for levy in ('none', 'space-time', 'davie'):
+            for kw in (dict(), dict(cache_size=1), dict(dt=0.05), dict(tol=1e-3, halfway_tree=True)):
+                if levy == 'davie' and kw:
+                    continue
+                out.append((t0, t1, levy, kw))
+    return out
+
+
+def c03(args):
+    """Chen / additivity / repeated-query consistency after solver-shaped and random histories."""
+    import random
+    bad = []
+    for (t0, t1, levy, kw) in _bm_configs():
+        rnd = random.Random(5)
+        bm = torchsde.BrownianInterval(t0, t1, size=(2, 2), entropy=11, levy_area_approximation=levy, dtype=torch.float64, **kw)
+        grid = [round(t0 + k * (t1 - t0) / 20, 6) for k in range(21)]
+        seen = {}
+        def q(a, b):
+            r = bm(a, b, return_U=(levy != 'none'))
+            return r if isinstance(r, tuple) else (r, None)
+        history = [(grid[k], grid[k + 1]) for k in range(0, 20, 3)] + [(0.0 if t0 < 0 else 1.0, t1 * 0.5 + 0.25)]
+        for _ in range(15):
+            a, b = sorted(rnd.sample(grid, 2))
+            history.append((a, b))
+        for (a, b) in history:
+            W, U = q(a, b)
+            key = (a, b)
+            if key in seen and not torch.equal(seen[key][0], W):
+                bad.append(('repeat', t0, t1, levy, kw, a, b, (seen[key][0] - W).abs().max().item()))
+            seen[key] = (W, U)
+            s_, u_, t_ = sorted(rnd.sample(grid, 3))
+            Wst, Ust = q(s_, t_)
+            Wsu, Usu = q(s_, u_)
+            Wut, Uut = q(u_, t_)
+            if (Wst - Wsu - Wut).abs().max().item() > 1e-9:
+                bad.append(('additivity', t0, t1, levy, kw, s_, u_, t_, (Wst - Wsu - Wut).abs().max().item()))
+            if Ust is not None and (Ust - Usu - Uut - (t_ - u_) * Wsu).abs().max().item() > 1e-9:
+                bad.append(('chen-U', t0, t1, levy, kw, s_, u_, t_))
+            # values returned earlier must still be consistent with what is returned now
+            for (a2, b2), (W2, U2) in list(seen.items())[-3:]:
+                W3, U3 = q(a2, b2)
+                if not torch.equal(W3, W2):
+                    bad.append(('history-dependence', t0, t1, levy, kw, a2, b2, (W3 - W2).abs().max().item()))
+            if len(bad) > 5:
+                break
+        z = bm(grid[3], grid[3])
+        if isinstance(z, torch.Tensor) and z.abs().max().item() != 0:
+            bad.append(('zero-length', t0, t1, levy, kw))
+    return {'reproduced': bool(bad), 'detail': [str(b) for b in bad[:6]]}
+
+
+RECIPES = {'c10': c10, 'c03': c03, 'linear_interp': linear_interp, 'c12': c12, 'c13': c13}
 
 if __name__ == '__main__':
     name = sys.argv[1]
